@@ -131,6 +131,18 @@ def runSem (j : Json) : Json :=
       let c : SemCase := { core, bp, circ := { bp.toCircuit with sources := srcIdx }, ids, names := jgetD j "names", stm, irConsts, replaced := jgetD j "replaced" }
       let (obs, ren) := buildObs c
       let inputs := buildInputs c
+      -- C13, source level: the program with the compiler's signal names on its untyped values denotes the same
+      -- (theorem Facto.retype_nodeVal holds for every retyping that passes this check)
+      let renamed : Array CNode := core.nodes.map (fun nd =>
+        match nd, nd.ty? with
+        | .select .., _ => nd
+        | _, some ty => if isImplicit ty then nd.setTy (ren ty) else nd
+        | _, none => nd)
+      let retypeOk := retypeCheck core.nodes renamed
+      -- the validator works on the program as the compiler named it: implicit types replaced by the signals chosen for
+      -- them (bundle members then carry the names found on the wires); `retypeCheck` is the premise of
+      -- Facto.retype_nodeVal / retype_bundle, which carry every statement back to the program as written
+      let vnodes : Array CNode := if retypeOk then renamed else core.nodes
       let seed := (jnatD j "seed" 1).toUInt64
       let count := jnatD j "count" 20
       let ticks := jnatD j "ticks" (2 * bp.ents.size + 8)
@@ -278,8 +290,8 @@ def runSem (j : Json) : Json :=
           | .sum es _ => es.all coneS.contains
           | .many es => es.all coneS.contains
           | .konst _ => true)
-      let memRoots : List (Nat × Bind) := (List.range core.nodes.size).filterMap (fun n =>
-        match (core.nodes[n]? : Option CNode) with
+      let memRoots : List (Nat × Bind) := (List.range vnodes.size).filterMap (fun n =>
+        match (vnodes[n]? : Option CNode) with
         | some (CNode.memRead m _) =>
           match (cellPairs.find? (fun (m', _, _, _, _, _) => m' == m)).map (fun (_, w, h, ty, _, _) => (n, Bind.sum [w, h] ty)) with
           | some r => some r
@@ -302,7 +314,7 @@ def runSem (j : Json) : Json :=
             | some a => some (nm.node, Bind.many (vc.loud a RG))
             | none => none
         else
-        match core.nodes.getD nm.node (.const "" 0) with
+        match vnodes.getD nm.node (.const "" 0) with
         | .select b _ =>
           -- bound from its bundle; if the bundle has no binding of its own, it is whatever this result's anchor sees
           (match idxOfId c.ids s!"{src}_{nm.name}_output_anchor" with
@@ -313,47 +325,47 @@ def runSem (j : Json) : Json :=
         match (idxOfId c.ids src).orElse (fun _ => idxOfId c.ids (src ++ "_folded")), nd.ty? with
         | some i, some ty => some (nm.node, Bind.ent i (ren ty))
         | _, _ => none)
-      let entOutRoots : List (Nat × Bind) := (List.range core.nodes.size).filterMap (fun n =>
-        match (core.nodes[n]? : Option CNode) with
+      let entOutRoots : List (Nat × Bind) := (List.range vnodes.size).filterMap (fun n =>
+        match (vnodes[n]? : Option CNode) with
         | some (CNode.entOut k) => (entIdx k).map (fun i => (n, Bind.many [i]))
         | _ => none)
       let enablePairs : List (Nat × Arg) := enableObs.filterMap (fun o => o.enable.map (fun w => (o.idx, w)))
-      let bindArr := inferBindings vc core.nodes (memRoots ++ entOutRoots ++ roots ++ cellPairs.flatMap (fun (_, w, _, ty, d, en) => proposeGated c.circ core.nodes w ty d en) ++ loopCells.flatMap (fun (_, e, ty, d) => proposeAlways c.circ core.nodes e ty d) ++ latchCells.flatMap (fun (_, e, _, _, ty, s, r, _) => proposeLatch c.circ core.nodes e ty s r)) enablePairs
+      let bindArr := inferBindings vc vnodes (memRoots ++ entOutRoots ++ roots ++ cellPairs.flatMap (fun (_, w, _, ty, d, en) => proposeGated c.circ vnodes w ty d en) ++ loopCells.flatMap (fun (_, e, ty, d) => proposeAlways c.circ vnodes e ty d) ++ latchCells.flatMap (fun (_, e, _, _, ty, s, r, _) => proposeLatch c.circ vnodes e ty s r)) enablePairs
       -- nodes the validator rejects (reported), then withdrawn from the binding together with whatever depended on
       -- them, until every remaining bound node passes: the theorems then speak about the results that are still bound
       let bindArr0 := bindArr
-      let failing := (List.range core.nodes.size).filter (fun n => !checkNode vc core.nodes (fun m => bindArr0.getD m none) n)
-      let bindArr := withdraw vc core.nodes (core.nodes.size + 1) bindArr0
+      let failing := (List.range vnodes.size).filter (fun n => !checkNode vc vnodes (fun m => bindArr0.getD m none) n)
+      let bindArr := withdraw vc vnodes (vnodes.size + 1) bindArr0
       let bindF : Nat → Option Bind := fun n => bindArr.getD n none
       let rank := computeRank vc
       let ranked := vc.checkRanked rank
-      let allOk := (List.range core.nodes.size).all (fun n => checkNode vc core.nodes bindF n)
+      let allOk := (List.range vnodes.size).all (fun n => checkNode vc vnodes bindF n)
       let nBound := (bindArr.toList.filter Option.isSome).length
       let matchJson := Json.mkObj <| [("ranked", Json.bool ranked), ("all", Json.bool failing.isEmpty),
         ("failing_nodes", Json.arr (failing.map (fun n => Json.mkObj [("node", toJson n),
-            ("kind", Json.str ((toString (repr (core.nodes.getD n (.const "" 0)))).take 60).toString)])).toArray),
-        ("bound", nBound), ("roots", roots.length), ("nodes", core.nodes.size),
+            ("kind", Json.str ((toString (repr (vnodes.getD n (.const "" 0)))).take 60).toString)])).toArray),
+        ("bound", nBound), ("roots", roots.length), ("nodes", vnodes.size),
         ("cells", Json.arr (cellPairs.map (fun (m, w, h, ty, d, en) =>
           Json.mkObj [("mem", toJson m), ("write_gate", toJson w), ("hold_gate", toJson h), ("type", Json.str ty),
             ("proved", Json.bool (stateful && allOk && cutOK c.circ cutL &&
-              gatedCellIs c.circ vc core.nodes bindF w h ty d en))])).toArray),
+              gatedCellIs c.circ vc vnodes bindF w h ty d en))])).toArray),
         ("latch_cells", Json.arr (latchCells.map (fun (m, e, mu, k, ty, sArg, rArg, sp) =>
           Json.mkObj [("mem", toJson m), ("entity", toJson e), ("type", Json.str ty), ("multiplier", match mu with | some x => toJson x | none => Json.null),
             ("set_priority", Json.bool sp),
             ("proved", Json.bool (stateful && allOk && cutOK c.circ cutL &&
-              latchIs c.circ vc core.nodes bindF e ty sArg rArg sp &&
+              latchIs c.circ vc vnodes bindF e ty sArg rArg sp &&
               (match mu with | some x => multIs c.circ e x ty k | none => true)))])).toArray),
         ("loop_cells", Json.arr (loopCells.map (fun (m, e, ty, d) =>
           Json.mkObj [("mem", toJson m), ("entity", toJson e), ("type", Json.str ty),
             ("proved", Json.bool (stateful && allOk && cutOK c.circ cutL &&
-              alwaysCellIs c.circ vc core.nodes bindF e ty d))])).toArray),
+              alwaysCellIs c.circ vc vnodes bindF e ty d))])).toArray),
         ("rings", Json.arr ((List.range core.mems.size).filterMap (fun m =>
           match core.mems[m]? with
           | some cell =>
             (match cell.writes, cell.ty with
              | [WriteRule.always d], some ty =>
                -- theorem Facto.ring_end_to_end on the uncut circuit
-               (match discoverRing c.circ core.nodes (ren ty) m d with
+               (match discoverRing c.circ vnodes (ren ty) m d with
                 | some (_, stages) => some (Json.mkObj [("mem", toJson m), ("latency", toJson stages.length), ("proved", Json.bool true)])
                 | none => some (Json.mkObj [("mem", toJson m), ("proved", Json.bool false)]))
              | _, _ => none)
@@ -366,7 +378,7 @@ def runSem (j : Json) : Json :=
             obs.filterMap (fun o =>
               match o.claim, o.sig with
               | some m, some s =>
-                (match constVal core.nodes (o.node + 1) o.node with
+                (match constVal vnodes (o.node + 1) o.node with
                  | some k => if SigMap.get m s == k then some (Json.str o.name) else none
                  | none => none)
               | _, _ => none)) ++ (if ranked && allOk then
@@ -374,7 +386,7 @@ def runSem (j : Json) : Json :=
             (obs.filterMap (fun o =>
               if o.claim.isSome then none else
               if let some w := o.enable then
-                (if !useCone && enableIs vc core.nodes bindF o.idx w then some (Json.str o.name) else none)
+                (if !useCone && enableIs vc vnodes bindF o.idx w then some (Json.str o.name) else none)
               else
               match bindF o.node with
               | some (.konst _) => none
@@ -408,14 +420,6 @@ def runSem (j : Json) : Json :=
       let inputsJson := Json.arr (core.nodes.toList.filterMap (fun nd => match nd with
         | .input name ty v => some (Json.mkObj [("name", name), ("ty", ty), ("lit", Json.num (JsonNumber.fromInt v.toInt))])
         | _ => none)).toArray
-      -- C13, source level: the program with the compiler's signal names on its untyped values denotes the same
-      -- (theorem Facto.retype_nodeVal holds for every retyping that passes this check)
-      let renamed : Array CNode := core.nodes.map (fun nd =>
-        match nd, nd.ty? with
-        | .select .., _ => nd
-        | _, some ty => if isImplicit ty then nd.setTy (ren ty) else nd
-        | _, none => nd)
-      let retypeOk := retypeCheck core.nodes renamed
       Json.mkObj [("id", id), ("elab", "ok"), ("stateful", Json.bool stateful), ("outputs", outputsJson), ("inputs", inputsJson), ("match", matchJson),
         ("retype_ok", Json.bool retypeOk), ("n_implicit", (core.nodes.toList.filter (fun nd => match nd.ty? with | some ty => isImplicit ty | none => false)).length),
         ("n_nodes", core.nodes.size), ("n_obs", obs.length), ("n_inputs", inputs.length),
